@@ -18,6 +18,10 @@ the wrapping primitive, and nothing lengthens a line after wrapping.
      between which a continuation may be inserted).
  R4  the wrapping primitive is wired to the style's line width; only comments,
      pragmas and preprocessor lines use ``no_wrap``.
+ R5  comment text never enters the wrapper as an item: a value derived from a
+     node's in-line ``comment`` reaches ``format_line`` only through the
+     ``comment=`` keyword (items are split at blanks and continued with ``&``,
+     which turns the tail of a long comment into code tokens).
 Not decided: the arithmetic of JoinableStringList itself.
 """
 import ast
@@ -212,6 +216,33 @@ def run(ctx):
                 (ctx.judge('R4', inst) if mem.name in NOWRAP_OK else
                  ctx.violation('R4', f'FortranCodegen.{mem.name}:no_wrap', f'{G.module.relpath}:{c.lineno}',
                                f'{mem.name} emits a statement line with no_wrap=True (only comments, pragmas and preprocessor lines may)'))
+    # ---- R5
+    ctx.rule('R5', 'values derived from `o.comment` are passed to format_line only as comment=..., never as a positional item')
+    n5 = 0
+    for mem in G.members.values():
+        if mem.kind != 'func':
+            continue
+        tainted = set()
+        for n in ast.walk(mem.node):
+            if isinstance(n, ast.Assign) and len(n.targets) == 1 and isinstance(n.targets[0], ast.Name) \
+                    and any(isinstance(a, ast.Attribute) and a.attr == 'comment' for a in ast.walk(n.value)):
+                tainted.add(n.targets[0].id)
+        if not tainted:
+            continue
+        for c in ast.walk(mem.node):
+            if isinstance(c, ast.Call) and (X.dotted_attr(c.func) or '') == 'self.format_line':
+                n5 += 1
+                pos = [ast.unparse(a) for a in c.args if any(isinstance(x, ast.Name) and x.id in tainted for x in ast.walk(a))
+                       or any(isinstance(x, ast.Attribute) and x.attr == 'comment' for x in ast.walk(a))]
+                inst = f'FortranCodegen.{mem.name}:format_line'
+                if pos:
+                    ctx.violation('R5', f'FortranCodegen.{mem.name}:comment-as-item', f'{G.module.relpath}:{c.lineno}',
+                                  f'{mem.name} passes the in-line comment `{pos[0]}` to format_line as a positional item: it is wrapped like '
+                                  f'code, so a long comment is continued with `&` and its tail is read as statement text',
+                                  facts={'call': ast.unparse(c)[:120]}, instance=inst)
+                else:
+                    ctx.judge('R5', inst, facts={'comment_names': sorted(tainted)})
+    ctx.floor('R5', 'format_line calls in handlers that render an in-line comment', n5, 3)
     style = m.get_class('loki/backend/style.py', 'FortranStyle')
     lw, o2 = m.class_attr(style, 'linewidth')
     val = m.const(o2.module, lw, o2) if lw is not None else None
@@ -220,6 +251,8 @@ def run(ctx):
 
 
 MUTANTS = [
+    Mutant('assignment-comment-positional', FG, "        return self.format_line(lhs, ' = ', rhs, comment=comment)", "        return self.format_line(lhs, ' = ', rhs, comment)",
+           expect=('R5', 'visit_Assignment:comment-as-item')),
     Mutant('assignment-raw-fstring', FG, "        return self.format_line(lhs, ' = ', rhs, comment=comment)", "        return f'{self.indent}{lhs} = {rhs}'",
            expect=('R1', 'visit_Assignment'), quick=True),
     Mutant('statement-no-wrap', FG, "        return self.format_line(keyword, str(text).lstrip())", "        return self.format_line(keyword, str(text).lstrip(), no_wrap=True)",
